@@ -79,7 +79,15 @@ def execute(ctx, case: dict) -> None:
     install()
     cls_name, platform = case["cls"], case["platform"]
     lines = case["lines"]  # list of [text, class, kind, token]
-    text = "\n".join(([case["header"]] if case.get("header") else []) + [case.get("indent", " ") + ln[0] for ln in lines])
+    def weird(line, idx):
+        # inside one line every Unicode blank is a blank (str.split): form feed, CR, vertical tab, NEL, ... separate tokens, not lines
+        chars = case.get("blanks")
+        if not chars or " " not in line or case.get("via_config"):  # the configuration reader splits lines with str.splitlines
+            return line
+        return line.replace(" ", chars[idx % len(chars)], 1) if idx % 3 == 0 else line
+
+    text = "\n".join(([case["header"]] if case.get("header") else []) +
+                     [case.get("indent", " ") + weird(ln[0], n) for n, ln in enumerate(lines)])
     del RECORDS[:]
     kwargs = {"platform": platform}
     if case.get("group_by"):
@@ -228,6 +236,8 @@ def gen_case(rng):
                     text, kind, tok = _invalid_acl_line(rng, platform)
                     lines.append([text, "invalid", kind, tok])
         case = {"cls": cls_name, "platform": platform, "lines": lines, "indent": indent, "type": acl_type}
+        if rng.random() < 0.15:
+            case["blanks"] = rng.sample(["\x0c", "\r", "\x0b", "\x1c", "\x85", "\u2028", "\t"], 3)
         if cls_name == "Acl":
             case["header"] = grammar.acl_header(platform, rng.choice(grammar.ACL_NAMES), acl_type)
             if heading and rng.random() < 0.5:
@@ -246,6 +256,9 @@ def gen_case(rng):
             if rng.random() < 0.4:
                 text = f"{rng.randint(1, 9999)} {text}"
             lines.append([text, "valid", "member", ""])
+            if rng.random() < 0.2:  # the same address again (another notation / sequence number): it is a line of its own
+                again = spell(rng, cube, platform, "AddressAg")
+                lines.append([f"{rng.randint(1, 9999)} {again}" if rng.random() < 0.5 else again, "valid", "member", ""])
         elif r2 < p_valid + p_ign:
             lines.append(["description " + _tok("d"), "ignorable", "", ""])
         else:
@@ -255,7 +268,10 @@ def gen_case(rng):
             lines.append([bad, "invalid", "member", ""])
     name = rng.choice(["G1", "NET-A", "x_1"])
     header = f"object-group network {name}" if platform == "ios" else f"object-group ip address {name}"
-    return {"cls": "AddrGroup", "platform": platform, "lines": lines, "indent": indent, "header": header}
+    case = {"cls": "AddrGroup", "platform": platform, "lines": lines, "indent": indent, "header": header}
+    if rng.random() < 0.15:
+        case["blanks"] = rng.sample(["\x0c", "\r", "\x0b", "\x1c", "\x85", "\u2028", "\t"], 3)
+    return case
 
 
 def run(ctx) -> None:
